@@ -44,7 +44,8 @@ def run_cases(ctx, w, cases, setup_query=None, setup_text=None, timeout=30, samp
     seen = set()
     for i, case in enumerate(cases):
         st, goal, exp = case[0], case[1], case[2]
-        extra = case[3] if len(case) > 3 else None
+        extra = dict(case[3]) if len(case) > 3 and case[3] else None
+        case_text = extra.pop('setup_text', None) if extra else None     # program text this case needs (for the replay file)
         if goal in seen:
             continue
         seen.add(goal)
@@ -70,5 +71,7 @@ def run_cases(ctx, w, cases, setup_query=None, setup_text=None, timeout=30, samp
             jobs.append({'op': 'raw', 'query': setup_query})
         if setup_text:
             jobs.append({'op': 'load', 'module': 'user', 'text': setup_text})
+        if case_text:
+            jobs.append({'op': 'load', 'module': 'user', 'text': case_text})
         jobs.append({'op': 'run', 'goal': goal + ' .', 'limit': 3, 'pred': 'runr'})
         rec.violation(sig, {'goal': goal, 'expected': show_exp(exp), 'observed': arith.show_obs(o)[:500], 'jobs': jobs})
